@@ -55,7 +55,8 @@ REQUIRED_FEATURES = [
     "free-list-nonempty-before", "root:register-in-window", "root:frame-function-of-callee", "root:frame-closure",
     "root:global-by-name", "root:global-by-index", "root:open-upvalue", "root:current-upvalue(host call)",
     "non-root:pointer-register-above-windows", "non-root:layout-snapshot-pointer",
-    "running-function-or-closure-rooted-by-frame-only",
+    "running-function-or-closure-rooted-by-frame-only", "several-running-closures-rooted-by-their-frames-only",
+    "root:frame-closures-of-several-frames",
     "edge:function.const", "edge:function.nested-const", "edge:function.nested-const(depth>=2)", "edge:closure.function",
     "edge:closure.upvalue", "edge:upvalue.closed", "edge:array.elem", "edge:vec.elem",
 ] + ["reachable-kind:" + k for k in ("string", "function", "native", "upvalue", "closure", "array", "vec")] \
@@ -293,7 +294,9 @@ def run(ctx):
         "(3:2,3:3,3:7), two pseudo-random (4:k); optimisation level 0; instruction budget 150000; sixth class selfrepl: 2-4 "
         "self-replacing handlers per program (the running function/closure removes the last reference to itself from a global, "
         "a Vec slot, an upvalue or a caller's local, then allocates 1-6 strings one or two frames deeper, then uses its own "
-        "constants/captures; plain functions and capturing closures; nested handlers three frames deep); closure programs also "
+        "constants/captures; plain functions and capturing closures; nested handlers three frames deep; chains of 2-4 capturing "
+        "closures in globals that each unregister themselves and call the next one, with the setup registers scrubbed, so that "
+        "several running closures are rooted by their own frames only); closure programs also "
         "call a closure while its captured variable is still an open upvalue, drop Vec/Array temporaries, and end with four HOST "
         "calls (VM::call_function_by_name on closures with host-allocated string arguments: current_upvalues); plain/mixed "
         "programs use manual buffers (alloc/store/load/free, ints only: the Alloc safepoint). feature_counts lists how many "
